@@ -184,6 +184,42 @@ def run(rep):
             rep.ob("M5-and-node-is-lazy-and", "And", ops == ["lazy_and"], TMB, arm["l"], f"requirements of an AND node must be joined with `&&`; found {ops}")
         elif ps.startswith("ReqDeclNode::Or"):
             rep.ob("M5-or-node-is-lazy-or", "Or", ops == ["lazy_or"], TMB, arm["l"], f"requirements of an OR node must be joined with `||`; found {ops}")
+    # absent condition = "always matches": an AND may drop absent conditions, an OR with an absent condition is itself absent (F17)
+    for arm in pm["arms"]:
+        ps = tab.show(arm["pat"])
+        if not ps.startswith("ReqDeclNode::Or"):
+            continue
+        fl = [n for n in tab.walk(arm["body"]) if n.get("k") == "MethodCall" and n["method"] == "flatten" and "conditions" in tab.show(n["recv"])]
+        bad = []
+        for n in fl:
+            guarded = False
+            for i_ in [x for x in tab.walk(arm["body"]) if x.get("k") == "If" and x.get("else")]:
+                c = tab.show(i_["cond"])
+                if re.search(r"conditions\.iter\(\)\.any\(\|(\w+)\|\1\.is_none\(\)\)", c) and any(y is n for y in tab.walk(i_["else"])):
+                    th = i_["then"]["stmts"]
+                    guarded = bool(th) and tab.show(th[-1]) == "None"
+            if not guarded:
+                bad.append(n["l"])
+        rep.ob("M5-or-with-an-unconditional-alternative-is-unconditional", "Or", bool(fl) and not bad, TMB, bad[0] if bad else arm["l"],
+               "alternatives without a condition (`_`, a plain variable) match every value; the OR of the alternatives must then be unconditional too, but the "
+               "absent conditions are simply dropped before the remaining ones are OR-ed (`1 | _` would become `x == 1`)")
+    # the variables of an or-pattern are paired with tuple fields by position: names and fields must be read from the same (sorted) state
+    vf = fn_named(tb, "instantiate_matched_or_variant_vars_expressions")
+    sorts = [n for n in tab.walk(vf["body"]) if n.get("k") == "MethodCall" and n["method"] in ("sort_by", "sort_by_key", "sort", "sort_unstable_by", "sort_unstable_by_key", "sort_unstable", "reverse", "swap", "rotate_left", "rotate_right")]
+    src_var = "carry_over_vars"
+    if sorts:
+        L = max(n["l"] for n in sorts)
+        stale = []
+        for l_, names_, _, init_ in tab.lets(vf["body"]):
+            if init_ is None or l_ >= L or not names_:
+                continue
+            if any(x.get("k") == "Path" and x["path"] == src_var for x in tab.walk(init_)):
+                later = [x["l"] for x in tab.walk(vf["body"]) if x.get("k") == "Path" and x["path"] == names_[0] and x["l"] > L]
+                if later:
+                    stale.append((names_[0], l_, later[0]))
+        rep.ob("M5-or-variables-paired-with-fields-of-the-same-ordering", "instantiate_matched_or_variant_vars_expressions", not stale, TMB, stale[0][1] if stale else vf["l"],
+               f"`{stale[0][0] if stale else ''}` is read from `{src_var}` before the alternatives' variables are re-ordered in place and used afterwards: names and tuple "
+               "fields are paired by position, so a name list taken in the old order binds variables to each other's values")
     bce = fn_named(tb, "build_condition_expression")
     b = tab.show(bce["body"])
     rep.ob("M5-conditions-joined-in-order", "build_condition_expression", "operator(lhs.clone(),build_condition_expression(others,operator))" in b and "split_first()" in b, TMB, bce["l"],
